@@ -50,7 +50,7 @@ void k_one_sort(Ctx& c)
             t.call([&] { call_sort<F>(B<K>(r), E<K>(r), cm); });
             Seq got = r.get();
             if (t.permutation("range", got, m)) {
-                if (f == S_stable) {
+                if (f == S_stable || f == S_insertion || f == S_bubble) { // stability: standard for stable_sort, documented by tetl for the other two
                     Seq exp = m;
                     std::stable_sort(exp.begin(), exp.end(), cmp);
                     t.seq("range", got, exp);
@@ -83,7 +83,7 @@ void k_one_sort_rev(Ctx& c)
             Seq got = r.get();
             std::reverse(got.begin(), got.end());
             if (t.permutation("range", got, m)) {
-                if (f == S_stable) {
+                if (f == S_stable || f == S_insertion || f == S_bubble) { // stability: standard for stable_sort, documented by tetl for the other two
                     Seq exp = m;
                     std::stable_sort(exp.begin(), exp.end(), cmp);
                     t.seq("range", got, exp);
